@@ -46,10 +46,10 @@ def lib_prefix():
 def cat_problem(a):
     scan = a.dom
     for k, box in enumerate(a.boxes):
-        if box.dom != scan:
+        if not W.same_type(box.dom, scan):
             return "box %d does not compose" % k
         scan = box.cod
-    if scan != a.cod:
+    if not W.same_type(scan, a.cod):
         return "arrow ends on %s, not on its codomain %s" % (scan, a.cod)
     return None
 
@@ -65,7 +65,7 @@ def scan_value(v, what, depth=0):
         return n
     if isinstance(v, cat.Sum):
         for t in v.terms:
-            if t.dom != v.dom or t.cod != v.cod:
+            if not W.same_type(t.dom, v.dom) or not W.same_type(t.cod, v.cod):
                 raise Violation("C01.ill-typed", "%s: a term of the sum has another type than the sum" % what)
             n += scan_value(t, what + " (term)", depth + 1)
         return n
@@ -402,6 +402,30 @@ class World(BaseWorld):
             self.put(op["dst"], v, f + " result")
         return out
 
+    def op_sum(self, op):
+        """formal sums: a + b, then composed / tensored with c; every term is scanned"""
+        a, b, c = self.get(op["a"]), self.get(op["b"]), self.get(op["c"])
+        if a is None or b is None or c is None or self.family in ("cartesian",):
+            return "skipped"
+        same = type_key(self.family, a.dom) == type_key(self.family, b.dom) \
+            and type_key(self.family, a.cod) == type_key(self.family, b.cod)
+        v, out = self.request(same, "a + b", lambda: a + b)
+        if v is None:
+            return out
+        self.note("values_scanned", scan_value(v, "sum"))
+        how = op["how"]
+        if how == "then":
+            legal = type_key(self.family, a.cod) == type_key(self.family, c.dom)
+            w, out = self.request(legal, "(a + b) >> c", lambda: v >> c)
+        elif how == "tensor" and self.family != "cat":
+            w, out = self.request(True, "(a + b) @ c", lambda: v @ c)
+        else:
+            w, out = self.request(True, "(a + b)[::-1]", lambda: v[::-1])
+        if w is not None:
+            self.note("values_scanned", scan_value(w, "sum " + how))
+            self.note("sums_built")
+        return out
+
     def op_then_many(self, op):
         vals = [self.get(n) for n in op["args"]]
         if any(v is None for v in vals):
@@ -587,6 +611,22 @@ class World(BaseWorld):
             else:
                 legal = adj
                 thunk = lambda: getattr(rigid.Diagram, kind)(l, r)
+        elif kind in ("fam_cups", "fam_caps"):
+            # the cups/caps of the semantic classes (tensor: any dimensions; circuit: qubits and bits)
+            l = mk_type(family, op["l"])
+            r = mk_type(family, op["r"])
+            legal = None if list(reversed(op["l"])) == list(op["r"]) else False
+            D = self._dclass()
+            thunk = lambda: getattr(D, kind[4:])(l, r)
+        elif kind == "random_tiling":
+            from discopy.quantum import circuit as C, gates as G
+            rnd = SimRandom2(op["decisions"])
+            C.random = rnd                   # the PRNG seam of random_tiling: a module attribute
+            gateset = [{"H": G.H, "CX": G.CX, "Rx": G.Rx, "Rz": G.Rz, "T": G.T, "CZ": G.CZ}[g]
+                       for g in op["gateset"]]
+            legal = None
+            thunk = lambda: C.random_tiling(op["n"], op["depth"], gateset=gateset, seed=op.get("seed"))
+            self.note("F6_random_tiling_decisions", len(op["decisions"]))
         elif kind in ("fa", "ba", "fc", "bc", "fx", "bx"):
             from discopy import rigid
             tys = [mk_type("rigid", t) for t in op["tys"]]
@@ -782,6 +822,27 @@ class CallbackFailure(Exception):
     pass
 
 
+class SimRandom2:
+    """Stands in for `random` inside discopy.quantum.circuit (random_tiling):
+    every draw is the next recorded decision."""
+    def __init__(self, decisions):
+        self.d, self.k = list(decisions) or [0], 0
+
+    def _next(self):
+        v = self.d[self.k % len(self.d)]
+        self.k += 1
+        return v
+
+    def seed(self, value=None):
+        return None
+
+    def random(self):
+        return (self._next() % 4096) / 4096.0
+
+    def choice(self, seq):
+        return seq[self._next() % len(seq)]
+
+
 # ---------------------------------------------------------------------------
 # driver
 # ---------------------------------------------------------------------------
@@ -911,9 +972,14 @@ class Driver:
             return {"op": "binop", "f": f, "a": a, "b": b, "dst": self.dst()}
         if r < 0.30 and mono:
             return {"op": "binop", "f": "tensor", "a": a, "b": sched.choice(names), "dst": self.dst()}
-        if r < 0.33:
+        if r < 0.32:
             return {"op": "then_many", "args": [a] + [sched.choice(names) for _ in range(sched.randint(0, 3))],
                     "dst": self.dst()}
+        if r < 0.33:
+            b = sched.choice([n_ for n_ in names if fingerprint(world.pool[n_]["real"])[:2]
+                              == fingerprint(world.pool[a]["real"])[:2]])
+            return {"op": "sum", "a": a, "b": b, "c": sched.choice(names),
+                    "how": sched.choice(["then", "tensor", "dagger"])}
         if r < 0.45:
             f = sched.choice(["dagger", "dagger_method", "iter", "layers_slices", "bubble", "downgrade",
                               "depth_width", "foliation", "foliation_flatten", "foliate_all", "normalize_all",
@@ -967,6 +1033,10 @@ class Driver:
             kinds += ["swap", "swap", "permutation", "permutation", "permute", "swap_box"]
         if family in ("rigid",):
             kinds += ["cups", "caps", "cup", "cap", "fa", "ba", "fc", "bc", "fx", "bx", "curry"]
+        if family in ("tensor", "circuit"):
+            kinds += ["fam_cups", "fam_caps"]
+        if family == "circuit":
+            kinds += ["random_tiling"]
         if family == "cartesian":
             kinds = ["permute"]
         if family == "biclosed":
@@ -995,6 +1065,17 @@ class Driver:
             if illegal and k:
                 perm[0] = k
             op["a"], op["perm"] = a, perm
+        elif kind in ("fam_cups", "fam_caps"):
+            l = self.ty(0, 3)
+            op["l"], op["r"] = l, list(reversed(l))
+            if illegal and l:
+                op["r"] = op["r"][1:]
+        elif kind == "random_tiling":
+            op.update({"n": sched.randint(1, 4), "depth": sched.randint(0, 3),
+                       "gateset": [sched.choice(["H", "CX", "Rx", "Rz", "T", "CZ"])
+                                   for _ in range(sched.randint(1, 4))] + ["H"],
+                       "decisions": [self.s["peer"].getrandbits(16) for _ in range(12)],
+                       "seed": sched.choice([None, 420])})
         elif kind in ("cups", "caps", "cup", "cap"):
             k = 1 if kind in ("cup", "cap") and not illegal else sched.randint(0, 3)
             l = [[sched.choice("ab"), sched.choice([0, 0, 1, -1, 2])] for _ in range(k)]
